@@ -381,10 +381,13 @@ func checkQRHistory(t TB, st *Stats, h QRHistory, decodeToo bool) {
 			continue // accepted although the reference says unrepresentable: C01/C10 judge that
 		}
 		w := bc.Bounds().Dx()
-		if got := (w - 17) / 4; got != want || (w-17)%4 != 0 {
+		got := (w - 17) / 4
+		if got > want || (w-17)%4 != 0 {
 			failf(t, "C13", "qr-twin-history", h, "call %d: a %dx%d symbol (version %d) after the earlier calls; the smallest version holding %d characters in mode %s at level %c is %d", i, w, w, got, len(q.Content), qrModeNames[q.Mode], "LMQH"[q.Level], want)
 		}
-		if !decodeToo {
+		// a smaller symbol than the single-mode minimum is allowed by the property if it is a sound symbol (an
+		// encoder may mix modes); then the reader decides
+		if !decodeToo && got == want {
 			continue
 		}
 		m, merr := matrix2D(bc)
